@@ -454,9 +454,10 @@ def k_simulator(ctx, only=None):
                 agreed += 1
                 ctx.coverage["discharged"] += 1
                 if npaths >= 4:
+                    ex = next((p for p in reversed(c["paths"]) if Fraction(p["prob"]) not in (0, 1)), c["paths"][-1])
                     ctx.sample({"program": c["src"], "iterations": c["N"], "scripts": npaths,
-                                "example_script": c["paths"][-1]["script"], "probability": c["paths"][-1]["prob"],
-                                "states": c["paths"][-1]["states"], "result": "every script and the law at every n agree"})
+                                "example_script": ex["script"], "probability": ex["prob"],
+                                "states": ex["states"], "result": "every script and the law at every n agree"})
     stats["programs_agreeing"] = agreed
     stats["statement_kinds"] = dict(sorted(kinds.items()))
     k_action(ctx, [cases[i] for i in done], stats)
